@@ -12,6 +12,7 @@
 (*                                tree, a batch of cached segments with     *)
 (*                                consecutive indices starting at the next  *)
 (*                                required one;                             *)
+(*   Reset                        the restart after a refused attempt       *)
 (*   Finalize                     check_progress = complete, then           *)
 (*                                check_update_leaf_set_state +             *)
 (*                                validate_complete_state (root check       *)
@@ -35,7 +36,7 @@
 (***************************************************************************)
 EXTENDS Naturals, Integers, Sequences, FiniteSets, TLC
 
-CONSTANTS Kinds, BatchSize, ValidateFirst, RootCheck
+CONSTANTS Kinds, BatchSize, ValidateFirst, RootCheck, ResetClearsBitmap
 
 M == INSTANCE MMR WITH m <- <<>>, MaxLeaves <- 0, TermLeaves <- 0
 
@@ -46,8 +47,9 @@ VARIABLES Cfg,        \* the archive header's trees (chosen once, never changes;
           cache,      \* [tree -> set of [idx, good]] validated-but-unapplied segments (<= 1 per idx)
           applied,    \* [tree -> Seq(BOOLEAN)] good-flags of the segments applied, in order
           bmFinal,    \* bitmap_cache.is_some()
+          txAcc,      \* the txhashset holds the received bitmap accumulator (set by finalize_bitmap only)
           finalised   \* "no" | "ok" | "err"
-vars == <<Cfg, cache, applied, bmFinal, finalised>>
+vars == <<Cfg, cache, applied, bmFinal, txAcc, finalised>>
 
 NSeg(t)   == Cfg.nseg[t]
 Count(t)  == Len(applied[t])
@@ -56,7 +58,10 @@ LocalLeaves(t) == Cfg.leaves_after[t][Count(t) + 1]
 CachedIdx(t) == {e.idx : e \in cache[t]}
 CeilDiv(a, b) == (a + b - 1) \div b
 
-AllGood == \A t \in Trees : Count(t) = NSeg(t) /\ \A i \in 1..Count(t) : applied[t][i]
+AllApplied == \A t \in Trees : Count(t) = NSeg(t) /\ \A i \in 1..Count(t) : applied[t][i]
+\* the state roots equal the archive header's: every tree assembled from good segments and the output root's
+\* bitmap half present in the txhashset
+AllGood == AllApplied /\ txAcc
 BitmapAccComplete == Count("bitmap") = NSeg("bitmap") /\ \A i \in 1..Count("bitmap") : applied["bitmap"][i]
 Complete == bmFinal /\ \A t \in PTrees : Count(t) = NSeg(t)        \* check_progress
 
@@ -94,11 +99,16 @@ InitWith(c) ==
         /\ cache = [t \in Trees |-> {}]
         /\ applied = [t \in Trees |-> <<>>]
         /\ bmFinal = FALSE
+        /\ txAcc = FALSE
         /\ finalised = "no"
 
 \* what Segment::validate / validate_with decide for this delivery (Segment.tla: honest => valid, any corruption => refused)
+\* kind "poison_spent": an honest output / rangeproof segment in which the data of a leaf the root does not
+\* depend on (spent, sibling spent) was altered: under a bitmap it validates like the honest one (Segment.tla:
+\* corruptions outside DependsOn are accepted), without a bitmap every leaf is required and it is refused.
 Valid(t, idx, kind) ==
-  /\ kind = "honest"
+  /\ \/ kind = "honest"
+     \/ (kind = "poison_spent" /\ t \in {"output", "rangeproof"} /\ bmFinal)
   /\ idx < NSeg(t)
   /\ t = "output" => BitmapAccComplete /\ (bmFinal \/ Cfg.complete[t][idx + 1])   \* other root = accumulator root; bitmap None needs every leaf
   /\ t = "rangeproof" => (bmFinal \/ Cfg.complete[t][idx + 1])
@@ -110,7 +120,7 @@ AddSegment(t, idx, kind) ==
   /\ cache' = IF Accepts(t, idx, kind) /\ idx \notin CachedIdx(t)
               THEN [cache EXCEPT ![t] = @ \cup {[idx |-> idx, good |-> kind = "honest"]}]
               ELSE cache
-  /\ UNCHANGED <<Cfg, applied, bmFinal, finalised>>
+  /\ UNCHANGED <<Cfg, applied, bmFinal, txAcc, finalised>>
 
 RECURSIVE Batch(_, _, _)
 \* take_segment_batch: consecutive indices from `from`, at most n
@@ -134,9 +144,10 @@ ApplyNext ==
           IF i \in CachedIdx("bitmap")
           THEN /\ applied' = [applied EXCEPT !["bitmap"] = Append(@, GoodOf("bitmap", i))]
                /\ cache' = [cache EXCEPT !["bitmap"] = {e \in @ : e.idx # i}]
-               /\ UNCHANGED bmFinal
-          ELSE UNCHANGED <<applied, cache, bmFinal>>
+               /\ UNCHANGED <<bmFinal, txAcc>>
+          ELSE UNCHANGED <<applied, cache, bmFinal, txAcc>>
      ELSE /\ bmFinal' = TRUE
+          /\ txAcc' = (IF bmFinal THEN txAcc ELSE TRUE)        \* finalize_bitmap runs only while bitmap_cache is None
           /\ LET b == [t \in PTrees |-> IF NextRequired(t) = -1 THEN <<>> ELSE Batch(t, NextRequired(t), BatchSize)]
              IN /\ applied' = [t \in Trees |-> IF t \in PTrees THEN applied[t] \o Flags(t, b[t], Count(t)) ELSE applied[t]]
                 /\ cache' = [t \in Trees |-> IF t \in PTrees THEN {e \in cache[t] : e.idx \notin SeqRange(b[t])} ELSE cache[t]]
@@ -145,9 +156,22 @@ ApplyNext ==
 Finalize ==
   /\ finalised = "no" /\ Complete
   /\ finalised' = IF RootCheck /\ ~AllGood THEN "err" ELSE "ok"
-  /\ UNCHANGED <<Cfg, cache, applied, bmFinal>>
+  /\ UNCHANGED <<Cfg, cache, applied, bmFinal, txAcc>>
 
-Next == \/ \E t \in Trees : \E idx \in 0..NSeg(t), k \in Kinds : AddSegment(t, idx, k)
+\* The PIBD-failure restart of state_sync.rs (check_run): Desegmenter::reset, reset_pibd_head,
+\* reset_chain_head_to_genesis (the txhashset is rebuilt for the genesis state), reset_prune_lists; the same
+\* desegmenter object then starts over.  ResetClearsBitmap = FALSE is the mutant "reset forgets bitmap_cache".
+Reset ==
+  /\ finalised = "err"
+  /\ cache' = [t \in Trees |-> {}]
+  /\ applied' = [t \in Trees |-> <<>>]
+  /\ bmFinal' = (IF ResetClearsBitmap THEN FALSE ELSE bmFinal)
+  /\ txAcc' = FALSE
+  /\ finalised' = "no"
+  /\ UNCHANGED Cfg
+
+Next == \/ Reset
+        \/ \E t \in Trees : \E idx \in 0..NSeg(t), k \in Kinds : AddSegment(t, idx, k)
         \/ ApplyNext
         \/ Finalize
 Spec == (\E c \in {Cfg} : InitWith(c)) /\ [][Next]_vars   \* the MC / trace modules supply the configuration
@@ -162,6 +186,9 @@ NeverFinaliseWrongRoots == finalised = "ok" => AllGood
 \* validate-then-cache: nothing corrupted is ever waiting to be applied, nothing corrupted is ever applied
 OnlyGoodCached  == \A t \in Trees : \A e \in cache[t] : e.good
 OnlyGoodApplied == \A t \in Trees : \A i \in 1..Count(t) : applied[t][i]
+\* after any number of refused attempts and restarts: a retry assembled from good segments only has the archive
+\* header's roots (so its final check passes and it finalises the same state)
+GoodRetryHasRoots == (Complete /\ AllApplied) => AllGood
 \* any arrival order ends in the same state: the only completed state is the canonical one
 SameFinalState == Complete => (BitmapAccComplete /\ AllGood)
 \* segments are applied in index order (applied[t] is a prefix of 0..n-1 by construction); once every
